@@ -522,13 +522,11 @@ class Builtins(Methods):
             else:
                 t = ex.to_term(st, p, ("list", et))
                 j = z3.Int(f"j!cat{fresh_id()}")
-                st.assume(
-                    z3.ForAll(
-                        [j],
-                        z3.Implies(z3.And(0 <= j, j < ln(t)), at(res.term, off + j) == at(t, j)),
-                        patterns=[at(t, j)],
-                    )
-                )
+                body = z3.Implies(z3.And(0 <= j, j < ln(t)), at(res.term, off + j) == at(t, j))
+                try:
+                    st.assume(z3.ForAll([j], body, patterns=[at(t, j)]))
+                except z3.Z3Exception:  # e.g. `if` inside the pattern term
+                    st.assume(z3.ForAll([j], body))
                 off = off + ln(t)
         st.assume(ln(res.term) == off)
         return st.alloc(ListObj(sv=res))
